@@ -63,11 +63,11 @@ def o12_3(tier):
             bel.append([ends[k], others[k % len(others)], ends[k + 1]])
         return ctx.alloc(F, vertices=vd, big_edges_list=bel, border_vertices=[], cells=ctx.dict())
 
-    def mk(guess, grow):
+    def mk(guess, grow, zero_id=False):
         def h(ctx):
             T = cls(ctx, "forsys.time_series", "TimeSeries")
             e0, o0 = [3, 8, 5], [40, 41]
-            e1, o1 = [12, 17, 11], [50, 51]
+            e1, o1 = ([12, 0, 11] if zero_id else [12, 17, 11]), [50, 51]        # zero_id: a vertex numbered 0 in the later frame
             c0 = {i: (ctx.real(f"a{i}x"), ctx.real(f"a{i}y")) for i in e0 + o0}
             c1 = {i: (ctx.real(f"b{i}x"), ctx.real(f"b{i}y")) for i in e1 + o1}
             t0, t1 = frame(ctx, "a", e0, o0, c0), frame(ctx, "b", e1, o1, c1)
@@ -122,4 +122,4 @@ def o12_3(tier):
             nn = [v for v in vals if v is not None]
             ctx.ensure(len(nn) == len(set(nn)), "no two vertices are sent to the same target")
         return h
-    return [("no-guess", mk([], False)), ("guess-3->17", mk([(3, 17)], False))]
+    return [("no-guess", mk([], False)), ("guess-3->17", mk([(3, 17)], False)), ("guess-3->0,vertex-id-0", mk([(3, 0)], False, True)), ("no-guess,vertex-id-0", mk([], False, True))]
